@@ -34,10 +34,12 @@ def setup():
 
 
 def quiet_logging():
-    """penman logs through the stdlib; keep it off stderr unless a run turns it on."""
+    """penman logs through the stdlib; keep it off stderr (NullHandler) but leave the level where a library user
+    finds it: NOTSET, i.e. WARNING inherited from the root logger.  Only penman's own main() ever raises or
+    lowers it; runs that want another level set it themselves and put it back."""
     import logging
     lg = logging.getLogger('penman')
-    lg.setLevel(logging.ERROR)
+    lg.setLevel(logging.NOTSET)
     if not any(isinstance(h, logging.NullHandler) for h in lg.handlers):
         lg.addHandler(logging.NullHandler())
 
